@@ -244,11 +244,16 @@ Definition insert_by_rel (s : signal) (l : list signal) : list signal :=
   insert_sorted (fun a b => s_rel a <? s_rel b) s l.
 
 (* Message.InsertSignal: name against every registered name of the message, layout against the
-   top-level signals; a multiplexer brings its descendants along (their names are not checked) *)
+   top-level signals; a multiplexer brings its descendants along *)
 Definition msg_insert (es : list enum_def) (msize : Z) (sigs : list signal) (t : subtree) (start : Z)
   : result (list signal) :=
   let '(s, below) := t in
   if mem_str (s_name s) (map s_name sigs) then Err "signal name duplicated"
+  (* Message.verifyNestedSignalNames: the descendants of an incoming multiplexer against the
+     message registry and among themselves *)
+  else if existsb (fun x => mem_str (s_name x) (map s_name sigs)) below then Err "nested signal name duplicated"
+  else if negb (Nat.eqb (length (dedup_str [] (map s_name (s :: below)))) (length (s :: below)))
+       then Err "nested signal name duplicated"
   else
     do _ <- verify_insert es (msize * 8) (filter (fun x => match s_parent x with None => true | _ => false end) sigs)
                           (sig_size es s) start;
